@@ -25,6 +25,7 @@ let handle (line : string) : string =
   | "pos" :: a :: _ -> run_pos a
   | "fsm" :: rest -> Fsm_io.run_fsm rest
   | "mem" :: rest -> Fsm_io.run_mem rest
+  | "node" :: rest -> Node_io.run_node rest
   | [] -> ""
   | k :: _ -> "unknown-case " ^ k
 
